@@ -94,8 +94,8 @@ theorem inv_getUser {s : St} (h : Inv s) (u : Nat) (b : Bool) (now : Int) : Inv 
           obtain ⟨r, hr, hru⟩ := h.boundWf u' rid hl
           exact ⟨r, by simp only; rw [List.getElem?_append_left (getElem?_lt _ _ _ hr)]; exact hr, hru⟩
 
-theorem inv_getSession {s : St} (h : Inv s) (rid sid key : Nat) (now : Int) :
-    Inv (getSession repairedCfg s rid sid key now).1 := by
+theorem inv_getSession {a b : Bool} {s : St} (h : Inv s) (rid sid key : Nat) (now : Int) :
+    Inv (getSession (orphanRepaired a b) s rid sid key now).1 := by
   unfold getSession
   split
   · exact h
@@ -104,7 +104,7 @@ theorem inv_getSession {s : St} (h : Inv s) (rid sid key : Nat) (now : Int) :
     · exact h
     · rename_i hnr
       have hnr' : r.retired = false := by
-        simp only [repairedCfg, Bool.true_and, Bool.not_eq_true] at hnr; exact hnr
+        simp only [orphanRepaired, Bool.true_and, Bool.not_eq_true] at hnr; exact hnr
       split
       · exact h
       · split
@@ -118,7 +118,7 @@ theorem inv_closeLocked {s : St} (h : Inv s) (rid sid : Nat) : Inv (closeLocked 
   · rename_i r hr
     exact inv_set h rid r _ hr rfl rfl (by intro _ he; simp only; rw [he]; rfl)
 
-theorem inv_retire {s : St} (h : Inv s) (rid : Nat) : Inv (retire repairedCfg s rid) := by
+theorem inv_retire {a b : Bool} {s : St} (h : Inv s) (rid : Nat) : Inv (retire (orphanRepaired a b) s rid) := by
   unfold retire
   split
   · exact h
@@ -129,18 +129,18 @@ theorem inv_retire {s : St} (h : Inv s) (rid : Nat) : Inv (retire repairedCfg s 
       by_cases hj : j = rid
       · subst hj
         rw [hr] at hx; cases hx
-        exact ⟨_, getElem?_set_eq' _ _ _ _ hr, by simp [repairedCfg], hxs⟩
+        exact ⟨_, getElem?_set_eq' _ _ _ _ hr, by simp [orphanRepaired], hxs⟩
       · exact ⟨x, by simp only; rw [getElem?_set_ne' _ _ _ _ (fun e => hj e.symm)]; exact hx, hxr, hxs⟩
     · intro j x hx hl
       rcases getElem?_set_cases _ _ _ _ _ hx with ⟨hj, rfl⟩ | ⟨_, hx'⟩
       · subst hj
-        exact ⟨by simp [repairedCfg], (h.unboundDone j r hr hl).2⟩
+        exact ⟨by simp [orphanRepaired], (h.unboundDone j r hr hl).2⟩
       · exact h.unboundDone j x hx' hl
     · intro j hp
       simp only [List.mem_cons] at hp
       by_cases hj : j = rid
       · subst hj
-        exact ⟨_, getElem?_set_eq' _ _ _ _ hr, by simp [repairedCfg]⟩
+        exact ⟨_, getElem?_set_eq' _ _ _ _ hr, by simp [orphanRepaired]⟩
       · rcases hp with hp | hp
         · exact absurd hp hj
         · obtain ⟨x, hx, hret⟩ := h.closingRetired j hp
@@ -176,7 +176,7 @@ theorem inv_closeAll {s : St} (h : Inv s) (rid : Nat) : Inv (closeAll s rid).1 :
         exact base.closingRetired j (List.mem_of_mem_erase hj)
   · exact h
 
-theorem inv_deleteRec {s : St} (h : Inv s) (rid : Nat) : Inv (deleteRec repairedCfg s rid).1 := by
+theorem inv_deleteRec {a b : Bool} {s : St} (h : Inv s) (rid : Nat) : Inv (deleteRec (orphanRepaired a b) s rid).1 := by
   unfold deleteRec
   split
   · rename_i hp
@@ -196,7 +196,7 @@ theorem inv_deleteRec {s : St} (h : Inv s) (rid : Nat) : Inv (deleteRec repaired
             · subst hj; rw [hr] at hx; cases hx; exact ⟨hret, hemp⟩
             · apply h.unboundDone j x hx
               have hb : lookup s.active r.uid = some rid := by
-                simp only [repairedCfg, Bool.true_and, bne_iff_ne, ne_eq, Decidable.not_not] at hbound
+                simp only [orphanRepaired, Bool.true_and, bne_iff_ne, ne_eq, Decidable.not_not] at hbound
                 exact hbound
               rw [hu, hb]; intro e; cases e; exact hj rfl
           · rw [lookup_filter_ne _ _ _ hu] at hl
@@ -207,7 +207,58 @@ theorem inv_deleteRec {s : St} (h : Inv s) (rid : Nat) : Inv (deleteRec repaired
           exact h.boundWf u j hl'
   · exact h
 
-theorem inv_step {s : St} (h : Inv s) (e : Ev) : Inv (step repairedCfg s e) := by
+/-- the clean-up of a refused connection keeps the invariant, whichever of the two it is: `CloseSession(own id)` is a
+closure; the repaired helper changes a record only by retiring it when it is empty -/
+theorem inv_refusedCleanup {a b : Bool} {s : St} (h : Inv s) (rid sid : Nat) :
+    Inv (refusedCleanup (orphanRepaired a b) s rid sid).1 := by
+  unfold refusedCleanup
+  split
+  · have := inv_closeLocked h rid sid
+    split <;> (rename_i heq; rw [heq] at this; exact this)
+  · split
+    · exact h
+    · rename_i r hr
+      by_cases he : r.sessions.isEmpty = true
+      · have hemp : r.sessions = [] := List.isEmpty_iff.1 he
+        by_cases hb : b = true
+        · -- retired now, and empty
+          have hret : (r.retired || ((orphanRepaired a b).cleanupRetires && r.sessions.isEmpty)) = true := by
+            simp [orphanRepaired, hb, he]
+          rw [hret]
+          refine ⟨?_, ?_, ?_, ?_⟩
+          · intro j hp
+            obtain ⟨x, hx, hxr, hxs⟩ := h.pendingDone j hp
+            by_cases hj : j = rid
+            · subst hj
+              exact ⟨_, getElem?_set_eq' _ _ _ _ hr, rfl, hemp⟩
+            · exact ⟨x, by simp only; rw [getElem?_set_ne' _ _ _ _ (fun e => hj e.symm)]; exact hx, hxr, hxs⟩
+          · intro j x hx hl
+            rcases getElem?_set_cases _ _ _ _ _ hx with ⟨hj, rfl⟩ | ⟨_, hx'⟩
+            · exact ⟨rfl, hemp⟩
+            · exact h.unboundDone j x hx' hl
+          · intro j hp
+            obtain ⟨x, hx, hxr⟩ := h.closingRetired j hp
+            by_cases hj : j = rid
+            · subst hj
+              exact ⟨_, getElem?_set_eq' _ _ _ _ hr, rfl⟩
+            · exact ⟨x, by simp only; rw [getElem?_set_ne' _ _ _ _ (fun e => hj e.symm)]; exact hx, hxr⟩
+          · intro u j hl
+            obtain ⟨x, hx, hxu⟩ := h.boundWf u j hl
+            by_cases hj : j = rid
+            · subst hj
+              rw [hr] at hx; cases hx
+              exact ⟨_, getElem?_set_eq' _ _ _ _ hr, hxu⟩
+            · exact ⟨x, by simp only; rw [getElem?_set_ne' _ _ _ _ (fun e => hj e.symm)]; exact hx, hxu⟩
+        · have hret : (r.retired || ((orphanRepaired a b).cleanupRetires && r.sessions.isEmpty)) = r.retired := by
+            simp [orphanRepaired, hb]
+          rw [hret]
+          exact inv_set h rid r _ hr rfl rfl (fun _ he' => he')
+      · have hret : (r.retired || ((orphanRepaired a b).cleanupRetires && r.sessions.isEmpty)) = r.retired := by
+          simp [he]
+        rw [hret]
+        exact inv_set h rid r _ hr rfl rfl (fun _ he' => he')
+
+theorem inv_step {a b : Bool} {s : St} (h : Inv s) (e : Ev) : Inv (step (orphanRepaired a b) s e) := by
   cases e with
   | put u i => exact ⟨h.pendingDone, h.unboundDone, h.closingRetired, h.boundWf⟩
   | del u => exact ⟨h.pendingDone, h.unboundDone, h.closingRetired, h.boundWf⟩
@@ -217,8 +268,9 @@ theorem inv_step {s : St} (h : Inv s) (e : Ev) : Inv (step repairedCfg s e) := b
   | retire rid => exact inv_retire h rid
   | closeAll rid => exact inv_closeAll h rid
   | deleteRec rid => exact inv_deleteRec h rid
+  | refusedCleanup rid sid => exact inv_refusedCleanup h rid sid
 
-theorem inv_run (evs : List Ev) : ∀ {s : St}, Inv s → Inv (run repairedCfg s evs) := by
+theorem inv_run {a b : Bool} (evs : List Ev) : ∀ {s : St}, Inv s → Inv (run (orphanRepaired a b) s evs) := by
   induction evs with
   | nil => intro s h; exact h
   | cons e rest ih => intro s h; exact ih (inv_step h e)
